@@ -173,10 +173,11 @@ theorem puts_all_refused (m : Matcher) (c : Bytes) (hc : c ≠ []) (key : Bytes)
     simp only [puts, h1, List.map]
     rw [puts_all_refused m c hc key rest t (fun i hi => hk i (List.mem_cons_of_mem _ hi)) hf]
 
-/-- **first writer wins.** `hm`: the condition holds exactly of items that lack the hash attribute. -/
-theorem first_put_wins (m : Matcher) (c : Bytes) (hc : c ≠ []) (t : Table) (hT : TableInv t) (hsec : t.schema.secondary = false)
-    (hm : ∀ stored, m .cond c stored = .ok (!(ahas t.schema.hash stored)))
+/-- **first writer wins**, from the two verdicts that matter: the condition holds of the empty item
+    (nothing stored) and fails on the first request's item -/
+theorem first_put_wins' (m : Matcher) (c : Bytes) (hc : c ≠ []) (t : Table) (hT : TableInv t)
     (key : Bytes) (first : Item) (rest : List Item)
+    (hm0 : m .cond c [] = .ok true) (hm1 : m .cond c first = .ok false)
     (hk : ∀ it ∈ first :: rest, Key.getKey t.schema t.attrs it = .ok key)
     (hv : t.validateIndexKeys first = true)
     (habs : abs t key = none) :
@@ -187,7 +188,7 @@ theorem first_put_wins (m : Matcher) (c : Bytes) (hc : c ≠ []) (t : Table) (hT
   have hget : t.getItem key = [] := by
     have : alookup key t.data = none := habs
     simp [Table.getItem, this]
-  have htrue : m .cond c (t.getItem key) = .ok true := by rw [hm, hget]; rfl
+  have htrue : m .cond c (t.getItem key) = .ok true := by rw [hget]; exact hm0
   obtain ⟨t1, h1⟩ := (put_iff hc hk1 hv).mpr htrue
   obtain ⟨key', hk', hT1, hself, hother⟩ := put_ok hT h1
   have : key' = key := by rw [hk1] at hk'; cases hk'; rfl
@@ -196,13 +197,25 @@ theorem first_put_wins (m : Matcher) (c : Bytes) (hc : c ≠ []) (t : Table) (hT
   have hstored : t1.getItem key' = first := by
     have : alookup key' t1.data = some first := hself
     simp [Table.getItem, this]
-  have hfalse : m .cond c (t1.getItem key') = .ok false := by
-    rw [hm, hstored, has_hash_of_getKey hsec hk1]; rfl
+  have hfalse : m .cond c (t1.getItem key') = .ok false := by rw [hstored]; exact hm1
   have hk2 : ∀ it ∈ rest, Key.getKey t1.schema t1.attrs it = .ok key' := by
     intro it hi; rw [hsh.schema, hsh.attrs]; exact hk it (List.mem_cons_of_mem _ hi)
   have hrest := puts_all_refused m c hc key' rest t1 hk2 hfalse
   simp only [puts, h1, hrest]
   exact ⟨trivial, hself, hother⟩
+
+/-- **first writer wins.** `hm`: the condition holds exactly of items that lack the hash attribute. -/
+theorem first_put_wins (m : Matcher) (c : Bytes) (hc : c ≠ []) (t : Table) (hT : TableInv t) (hsec : t.schema.secondary = false)
+    (hm : ∀ stored, m .cond c stored = .ok (!(ahas t.schema.hash stored)))
+    (key : Bytes) (first : Item) (rest : List Item)
+    (hk : ∀ it ∈ first :: rest, Key.getKey t.schema t.attrs it = .ok key)
+    (hv : t.validateIndexKeys first = true)
+    (habs : abs t key = none) :
+    (puts m c t (first :: rest)).2 = true :: rest.map (fun _ => false) ∧
+    abs (puts m c t (first :: rest)).1 key = some first ∧
+    ∀ k, k ≠ key → abs (puts m c t (first :: rest)).1 k = abs t k :=
+  first_put_wins' m c hc t hT key first rest (by rw [hm]; rfl)
+    (by rw [hm, has_hash_of_getKey hsec (hk first (List.mem_cons_self ..))]; rfl) hk hv habs
 
 /-! ### no lost update -/
 
